@@ -7,11 +7,14 @@ from ..prng import Rng
 from .. import core
 from .. import genv as G
 
-PROBES = ["abc", "xb", "zzz", "missing.one", "a", "", "cls-x", "b.c", "addon x", "addonx", "legacy"]
+PROBES = ["abc", "xb", "zzz", "missing.one", "a", "", "cls-x", "b.c", "addon x", "addonx", "legacy", "XB", "Abc", "LEGACY x", "CLS-y", "x b"]
 GOOD_PATS = [".*", "^a", "b$", "^zzz$", "one", "^missing\\.one$", "cls-x", "^b\\.c$"]
 # outside the modelled sub-language (judged on the implementation's own reports only): each compiles alone, but the
 # two \\w{200} patterns exceed the regex crate's compiled-size limit as one set
-RICH_PATS = [["^addon x$"], ["legacy#("], ["^a  b$", "x # y"], ["(?i)ABC", "^xb$"], ["\\w{200}", "a\\w{200}"], ["\\w{200}"], ["^\\w+$"], ["(?i)^ABC$"], ["^.{2}$", "\\d"], ["a\\w{200}", "\\w{200}", "^a"]]
+RICH_PATS = [["^addon x$"], ["legacy#("], ["^a  b$", "x # y"], ["(?i)ABC", "^xb$"], ["\\w{200}", "a\\w{200}"], ["\\w{200}"], ["^\\w+$"], ["(?i)^ABC$"], ["^.{2}$", "\\d"], ["a\\w{200}", "\\w{200}", "^a"],
+             # a flag written inside one pattern applies to that pattern only; a pattern that does not compile alone is rejected
+             # even if it would compile as part of a longer expression
+             ["(?i)^LEGACY", "^xb$", "^cls-"], ["(?x) a b c", "x b"], ["service\\", ".*missing.*"], ["^xb$", "(?i)abc"], ["a(", "b)"]]
 BAD_PATS = ["(", "[a", "*"]
 
 
@@ -55,7 +58,7 @@ CLAUSES = [
     C("ctor", ctor={"ignore": True}, steps=[["set_patterns", ["("]], ["set_patterns", ["*"]], ["set_patterns", ["b$"]]]),
     C("ctor", ctor={"ignore": True}, steps=[["set_patterns", ["^a"]], ["set_patterns", ["\\w{200}", "a\\w{200}"]], ["set_patterns", ["\\w{200}"]], ["set_patterns", ["("]]]),
     C("ctor", ctor={"nodes": "x", "classes": "x"}), C("ctor", ctor={"nodes": "x", "classes": "x/y"}), C("ctor", ctor={"nodes": "a/../b", "classes": "./c"}),
-    # D15 (known finding): a path option that YAML must quote keeps its quotes via file/dict
+    # D15 (repaired): a path option that YAML must quote is stored like the constructor stores it
     C("file", [("nodes_uri", "123")]),
 ]
 
@@ -332,12 +335,6 @@ class C20(Prop):
                 a, b = n.split("/"), c.split("/")
                 return a[:len(b)] == b or b[:len(a)] == a
             return False
-        if finding.get("id") != "D15":
-            return False
-        # a path option whose YAML form needs quotes
-        for o in req.get("options", []):
-            if o[0] in ("nodes_uri", "classes_uri") and len(o) > 2 and o[2] != o[1]:
-                return True
         return False
 
 
